@@ -113,6 +113,17 @@ func splitFunc(ctx *flags.Context) error {
 
 			sort.Ints(heads)
 
+			// Several sites at one position of a circular sequence open it
+			// there, like a single site does.
+			if len(heads) == 1 && top == gts.Circular {
+				seq = gts.Rotate(seq, -heads[0])
+				seq = gts.WithTopology(seq, gts.Linear)
+				if _, err := writer.WriteSeq(seq); err != nil {
+					return ctx.Raise(err)
+				}
+				break
+			}
+
 			splits := make([]int, len(heads)+2)
 			if top == gts.Circular {
 				splits[0] = heads[len(heads)-1]
